@@ -13,4 +13,5 @@ var Registry = map[string]Prop{
 	"C01": {C01, c01Replay},
 	"C09": {C09, c09Replay},
 	"C10": {C10, c10Replay},
+	"C11": {C11, c11Replay},
 }
